@@ -24,7 +24,7 @@ type cfgSel struct {
 	snr     int
 	ast     int64
 	tsbd    int
-	atoKind int // 0 none, 1 quarter segment, 2 segment-40ms, 3 1.5 segments
+	atoKind int   // 0 none, 1 quarter segment, 2 segment-40ms, 3 1.5 segments
 	stopRel int64 // stop_ at AST + stopRel seconds (0 = none)
 	periods int   // periods_<n> (0 = single period)
 }
@@ -44,6 +44,19 @@ func atoMS(kind int, segMS int64) int64 {
 func uniform(rt *project.RepTruth) bool {
 	for _, d := range rt.Dur {
 		if d != rt.Dur[0] {
+			return false
+		}
+	}
+	return true
+}
+
+// wholeMS: every segment boundary of the representation is a whole millisecond
+func wholeMS(rt *project.RepTruth) bool {
+	if rt.Vod0*1000%rt.TS != 0 {
+		return false
+	}
+	for _, d := range rt.Dur {
+		if d*1000%rt.TS != 0 {
 			return false
 		}
 	}
@@ -77,6 +90,8 @@ type job struct {
 	cs   cfgSel
 	seed int64
 	mpd  string
+	// gen: URL option that makes the server generate this representation (timesubsstpp_en / timesubswvtt_en)
+	gen string
 }
 
 func Main(args []string) error {
@@ -142,10 +157,23 @@ func Main(args []string) error {
 		type sel struct {
 			rt  *project.RepTruth
 			mpd string
+			gen string
 		}
-		reps := []sel{{a.Video, a.MPD}}
+		reps := []sel{{a.Video, a.MPD, ""}}
 		if a.Text != nil {
-			reps = append(reps, sel{a.Text, "Manifest_imsc1.mpd"})
+			reps = append(reps, sel{a.Text, "Manifest_imsc1.mpd", ""})
+		}
+		// generated time subtitles: a text AdaptationSet whose timeline is the video's in ms (C12 decides the cues; here
+		// the listed entries must be served as declared and the one after the edge refused with 425)
+		if wholeMS(a.Video) && !*nofetch {
+			v := a.Video
+			kind := []string{"stpp", "wvtt"}[len(reps)%2]
+			g := &project.RepTruth{ID: "time" + kind + "-en", Kind: "text", TS: 1000, N: v.N, Vod0: v.Vod0 * 1000 / v.TS, L: v.L * 1000 / v.TS,
+				MediaPat: "time" + kind + "-en/$Number$.m4s"}
+			for _, d := range v.Dur {
+				g.Dur = append(g.Dur, d*1000/v.TS)
+			}
+			reps = append(reps, sel{g, a.MPD, "timesubs" + kind + "_en"})
 		}
 		if a.Thumbs != nil {
 			th := a.Thumbs
@@ -153,7 +181,7 @@ func Main(args []string) error {
 			for j := 0; j < th.N; j++ {
 				rt.Dur = append(rt.Dur, th.DurS)
 			}
-			reps = append(reps, sel{rt, "Manifest_thumbs.mpd"})
+			reps = append(reps, sel{rt, "Manifest_thumbs.mpd", ""})
 		}
 		// audio AdaptationSet: its timeline follows the video grid (C03 decides the grid itself); here the declared
 		// entries must be served with the declared time/duration and the one after the edge refused. Times are
@@ -162,7 +190,7 @@ func Main(args []string) error {
 			pa := a.LoopMS * a.Audio.TS / 1000
 			art := &project.RepTruth{ID: a.Audio.ID, Kind: "audio", TS: a.Audio.TS, N: 1, Dur: []int64{pa}, L: pa,
 				MediaPat: a.Audio.MediaPat, Trex: a.Audio.Trex}
-			reps = append(reps, sel{art, a.MPD})
+			reps = append(reps, sel{art, a.MPD, ""})
 		}
 		for _, rs := range reps {
 			for _, cs := range cfgs {
@@ -175,7 +203,7 @@ func Main(args []string) error {
 				if cs.periods > 0 && (rs.rt.Kind != "video" || (3600/cs.periods*1000)%int(rs.rt.Dur[0]*1000/rs.rt.TS) != 0 || !uniform(rs.rt)) {
 					continue // multi-period only where the period duration is a multiple of a uniform segment duration
 				}
-				jobs = append(jobs, job{a, rs.rt, cs, rng.Int63(), rs.mpd})
+				jobs = append(jobs, job{a, rs.rt, cs, rng.Int63(), rs.mpd, rs.gen})
 			}
 		}
 		if len(samples) < 3 {
@@ -197,6 +225,15 @@ func Main(args []string) error {
 		ato := atoMS(cs.atoKind, segMS)
 		c := tl.Cfg{Mode: cs.mode, SNR: cs.snr, AST: cs.ast, TSBD: cs.tsbd, AtoMS: ato}
 		stop := int64(-1)
+		trex := rt.Trex
+		if j.gen != "" {
+			c.Extra = append(c.Extra, j.gen)
+			if ri := env.S.Get(c.Prefix(a.Name) + "/" + rt.ID + "/init.mp4"); ri.Status == 200 {
+				if init, err := project.ParseInit(ri.Body); err == nil && init.Moov != nil && init.Moov.Mvex != nil {
+					trex = init.Moov.Mvex.Trex
+				}
+			}
+		}
 		if cs.periods > 0 {
 			c.Extra = append(c.Extra, fmt.Sprintf("periods_%d", cs.periods))
 		}
@@ -363,7 +400,7 @@ func Main(args []string) error {
 				e["dur"] = -1
 				e["nrp"] = []int64{-1, -1}
 				if r2.st == 200 && rt.Kind != "image" {
-					md, err := project.ParseMedia(r2.body, rt.Trex)
+					md, err := project.ParseMedia(r2.body, trex)
 					if err != nil {
 						e["st"] = -1
 					} else {
